@@ -1,0 +1,55 @@
+//go:build verif_min && !verif && !verif_nomanip
+
+package rosed
+
+// Copy of the internal/manip, internal/util and internal/tb part of verif_export.go and of
+// verif_export_table.go for the tag set verif_min (see verif_min_export.go). Changes no
+// existing code.
+
+import (
+	"github.com/dekarrin/rosed/internal/gem"
+	"github.com/dekarrin/rosed/internal/manip"
+	"github.com/dekarrin/rosed/internal/tb"
+	"github.com/dekarrin/rosed/internal/util"
+)
+
+func VerifRangeToIndexes(size, start, end int) (int, int) {
+	return util.RangeToIndexes(size, start, end)
+}
+
+func VerifCollapseSpace(text, sep string) string {
+	return manip.CollapseSpace(gem.New(text), gem.New(sep)).String()
+}
+
+func VerifWrap(text string, width int, sep string) []string {
+	return gem.Strings(manip.Wrap(gem.New(text), width, gem.New(sep)).Lines)
+}
+
+func VerifJustifyLine(text string, width int) string {
+	return manip.JustifyLine(gem.New(text), width).String()
+}
+
+func VerifAlignLine(kind int, text string, width int) string {
+	switch kind {
+	case 0:
+		return manip.AlignLineLeft(gem.New(text), width).String()
+	case 1:
+		return manip.AlignLineRight(gem.New(text), width).String()
+	default:
+		return manip.AlignLineCenter(gem.New(text), width).String()
+	}
+}
+
+func VerifCombineColumns(left, right []string, gap int) []string {
+	l := tb.Block{Lines: gem.Slice(left)}
+	r := tb.Block{Lines: gem.Slice(right)}
+	return gem.Strings(manip.CombineColumnBlocks(l, r, gap).Lines)
+}
+
+func VerifMakeTable(data [][]string, width int, lineSep string, header bool, border bool, charSet string) []string {
+	gd := make([][]gem.String, len(data))
+	for i := range data {
+		gd[i] = gem.Slice(data[i])
+	}
+	return gem.Strings(manip.MakeTable(gd, width, gem.New(lineSep), header, border, gem.New(charSet)).Lines)
+}
